@@ -93,6 +93,11 @@ func Conforming(t *rapid.T, cfg Cfg) M {
 			b.comps["schemas"]["LoopEntry2"] = M{"oneOf": []any{ref("schemas", "LoopA")}}
 		}
 	}
+	if cfg.Unusual && b.chance(3, "ecmapattern") {
+		// a pattern only an ECMA-262 engine can compile (a look-ahead), on a schema without a type: the
+		// document validator does not compile it there, and traffic must get an error, every time
+		b.comps["schemas"]["Lookahead"] = M{"pattern": "^(?!x)[a-z]+$"}
+	}
 	if cfg.Unusual && b.chance(2, "recursive") {
 		b.comps["schemas"]["Rec"] = M{"type": "object", "properties": M{"next": ref("schemas", "Rec"), "v": M{"type": "integer"}, "list": M{"type": "array", "items": ref("schemas", "Rec")}}}
 	}
